@@ -414,3 +414,32 @@ def r5(ctx):
            "with a non-blocking transport an empty read raises connection-closed" if bad is None else
            "with a non-blocking transport (timeout 0) an empty read (end of stream) is returned to the caller: recv_line / recv_strict then loop forever on b''",
            idx.loc(idx.func("_socket:recv").node), {"path": path_text(bad)} if bad else None)
+
+
+@rule("R-C17-6", min_instances=2, title="a rejected frame is consumed: when validation refuses a frame the reader is back at 'expect a header', so the next call parses the next frame from its true start (no stale header, no spinning on the same bytes)")
+def r6(ctx):
+    idx = ctx.index
+    q = "_abnf:frame_buffer.recv_frame"
+    loc = idx.loc(idx.func(q).node)
+    for skip in (FALSE, TRUE):
+        I = Interp(idx, recv_config())
+        outs = explore_recv(ctx, I, "recv_frame", "idle", skip=skip)
+        n = 0
+        bad = None
+        for o in outs:
+            if o.kind != "raise" or not any(e.name == "enter:_abnf:ABNF.validate" for e in o.effects):
+                continue
+            n += 1
+            ws = next((c for c in o.run.heap.values() if getattr(c, "cls", None) == "_core:WebSocket"), None)
+            fb = o.run.cell(ws.fields["frame_buffer"]).fields if ws is not None and isinstance(ws.fields.get("frame_buffer"), Ref) else None
+            if fb is None:
+                raise AnalysisError("frame_buffer object not found on a rejecting path")
+            stale = {k: fb.get(k) for k in ("header", "length", "mask_value") if fb.get(k) not in (None, NONE)}
+            if stale:
+                bad = bad or (stale, o)
+        if n == 0:
+            raise AnalysisError("no path on which validation rejects a completely read frame")
+        ctx.ob(f"{q}:rejected-frame-is-consumed:skip={skip!r}", bad is None, f"{n} rejecting paths leave header/length/mask cleared" if bad is None else
+               f"after a frame is rejected ({bad[1].exc_class}) the reader keeps {sorted(bad[0])} of that frame: the next receive call skips header parsing and "
+               f"reads the following frame's bytes as payload of the stale header (or fails again without consuming anything)", loc, {"path": path_text(bad[1])} if bad else None)
+
